@@ -607,6 +607,20 @@ def r9_spawned_tasks(chk, fx):
     from vlib import absint as A
     b = fx.user_coroutine(RUN)
     names = sorted(n for n in fx.thir if n.startswith(b.name + "::{closure#") and n in fx.mir and fx.mir[n].coroutine)
+    # .. and the async fns of the same module that run() calls (a spawned block turned into a named `async fn await_installed(response)`)
+    mod = AGENT + "::task::"
+    for n, body in sorted(fx.mir.items()):
+        if not (n.startswith(b.name.split("::{closure")[0]) and body.crate == AGENT):
+            continue
+        for c in body.calls():
+            tgt = None if c.macro else (c.rdef if (c.rdef or "").startswith(mod) else c.defn if (c.defn or "").startswith(mod) else None)
+            if tgt and "::{closure" not in tgt and not tgt.startswith(RUN):
+                try:
+                    hb = fx.user_coroutine(tgt)
+                except F.AnchorLost:
+                    continue
+                if hb.name in fx.thir and hb.name not in names:
+                    names.append(hb.name)
     n_err = 0
     for n in names:
         chk.analysed(n)
